@@ -447,6 +447,7 @@ func (p *wat2wasmWorker) buildStartSection() error {
 				startFound = true
 				break
 			}
+			startIdx++
 		}
 	}
 
